@@ -25,7 +25,7 @@ HARNESS = os.path.join(ROOT, "harness/c10/zz_verif_c10_test.go")
 PKG = "./internal/index/manager/"
 RUN = os.path.join(BUILD, "run", "c10")
 TAGDEFS = ['cdata:"a"', 'cdata:"bb"', 'cdata:"c"']
-GEN_VERSION = 7
+GEN_VERSION = 8
 KF_REFETCH = "view-refetch-empty"
 
 
@@ -73,7 +73,8 @@ def gen_scenario(rng, name, big=False):
             script.append([k, rng.randrange(6)])
         else:
             script.append([k])
-    return {"name": name, "caps": caps, "script": script, "tags": TAGDEFS[:rng.randint(0, 3)] if style < 0.75 else TAGDEFS, "probe": nflows + 2, "bad": bad}
+    return {"name": name, "caps": caps, "script": script, "tags": TAGDEFS[:rng.randint(0, 3)] if style < 0.75 else TAGDEFS, "probe": nflows + 2, "bad": bad,
+            "restart": rng.random() < 0.3}
 
 
 def gen_conv_scenario(rng, name):
@@ -125,6 +126,10 @@ def fixed_scenarios():
     out.append({"name": "fix-unreadable-captures", "caps": [[], [[0, 3]], [[1, 2]], [], [[0, 1], [2, 2]], [[1, 1]]], "bad": [0, 3], "tags": [], "probe": 5,
                 "script": [["import", 2], ["view"], ["job", "import"], ["import", 3], ["job", "import"], ["job", "import"], ["view"], ["job", "import"],
                            ["job", "import"], ["job", "import"], ["view"], ["job", "import"], ["job", "import"], ["import", 1]]})
+    # restart after merges, with tags and one unloadable file in the directory; one more import after the restart
+    out.append({"name": "fix-restart", "caps": [[[0, 3]], [[1, 2]], [[2, 1]], [[0, 1], [3, 2]], [[1, 4]]], "tags": ['cdata:"a"'], "probe": 6, "restart": True,
+                "script": [["import", 1], ["job", "import"], ["job", "import"], ["import", 1], ["job", "import"], ["job", "import"], ["tagadd"],
+                           ["import", 1], ["view"], ["step", 0], ["step", 0], ["step", 0], ["step", 0], ["step", 0], ["step", 0], ["import", 1]]})
     # view opened on an empty service (shape of finding view-refetch-empty)
     out.append({"name": "fix-view-on-empty", "caps": [[[0, 3], [1, 2]], [[0, 1]]], "tags": [], "probe": 4,
                 "script": [["view"], ["import", 1], ["job", "import"], ["job", "import"], ["read", 0], ["import", 1], ["job", "import"], ["job", "import"]]})
@@ -372,12 +377,20 @@ def oracle_c13(sc, trace):
     jobs = {}        # kind -> list of files the job holds (inferred at launch, fixed afterwards)
     pending = {}     # kind -> files written by a job that has run but not completed
     prevdir, prevlive = set(), set()
+    junk = set()     # index files manager.New could not load at a restart: they stay in the directory, uncounted
     for i, s in enumerate(steps):
         if s.get("fatal"):
             fails.append(fail("C13", "fatal", i, s["fatal"]))
             break
         st, act = s["st"], (s.get("act") or [])
         L, U, D = st["idx"], st["used"], set(s["dir"])
+        if act[:1] == ["restart"]:
+            # manager.New on the directory the previous instance left at quiescence: every loadable file served, count 1
+            before = steps[i - 1]["st"]["idx"]
+            junk.add(act[1])
+            jobs, pending, prevlive = {}, {}, set()
+            if sorted(L) != sorted(before) or act[1] in L:
+                fails.append(fail("C13", "restart", i, "after the restart the service serves %s, before it served %s (unloadable: %s)" % (L, before, sorted(junk))))
         views = s.get("views") or {}
         # (1) reads through held views succeed; job bodies report no failed file operation
         for vid, ob in sorted(views.items()):
@@ -386,7 +399,7 @@ def oracle_c13(sc, trace):
             for f in ob["held"]:
                 if f not in D:
                     fails.append(fail("C13", "deleted-in-use", i, "file %s is held by view %s but is not in the index directory" % (f, vid)))
-        badnames = ["c%03d.pcap" % k for k in sc.get("bad", [])]
+        badnames = ["c%03d.pcap" % k for k in sc.get("bad", [])] + sorted(junk)
         unexpected = [l for l in (s.get("log") or []) if not any(b in l for b in badnames)
                       and not (sc.get("conv") and "onver" in l)]      # failed conversions (converter removed under its job) are C16's business
         if unexpected:
@@ -439,7 +452,7 @@ def oracle_c13(sc, trace):
         if any(v <= 0 or v > 1000 for v in U.values()):
             fails.append(fail("C13", "count", i, "use count out of range: %s" % U))
         # (4) a file exists exactly while something uses it (or its writer has not completed yet)
-        pend = {f for fs in pending.values() for f in fs}
+        pend = {f for fs in pending.values() for f in fs} | junk
         if D != set(U) | pend:
             extra, missing = sorted(D - set(U) - pend), sorted((set(U) | pend) - D)
             fails.append(fail("C13", "directory", i, "index directory differs from the files in use: only on disk %s, in use but missing %s" % (extra, missing)))
@@ -452,7 +465,7 @@ def oracle_c13(sc, trace):
         L, U, D = s["st"]["idx"], s["st"]["used"], set(s["dir"])
         if s.get("parked") or s["st"]["queue"]:
             fails.append(fail("C13", "quiescence", len(steps) - 1, "jobs still live at the end: %s queue %s" % (s.get("parked"), s["st"]["queue"])))
-        elif D != set(L) or U != {f: 1 for f in L}:
+        elif D != set(L) | junk or U != {f: 1 for f in L}:
             fails.append(fail("C13", "quiescent-directory", len(steps) - 1, "at quiescence directory %s, served %s, counts %s" % (sorted(D), L, U)))
     elif not any(f["kind"] == "fatal" for f in fails):
         fails.append(fail("C13", "fatal", len(steps), "scenario did not reach its end"))
@@ -506,6 +519,8 @@ def model_case_text(sc, trace):
             lines.append(act[0])
         elif act[0] in ("start", "complete"):
             lines.append("%s %s" % (act[0], act[1]))
+        elif act[0] == "restart":
+            lines.append("restart %d" % uid_map(trace["steps"])[act[1]])
         elif act[0] in ("init", "end"):
             lines.append("obs")
         prevparked = parked
@@ -653,6 +668,8 @@ def history_features(sc, trace):
             feat.add("converter-job-in-flight")
             if act[:1] in (["convdetach"], ["convremove"]):
                 feat.add("converter-detached-or-removed-under-its-job")
+        if act[:1] == ["restart"]:
+            feat.add("restart-with-unloadable-index-file")
         if act[:1] == ["view"]:
             feat.add("view-opened")
             if s.get("parked"):
